@@ -372,6 +372,192 @@ fn long_continuations(ctx: &Ctx, cfg: &Cfg, hist_depth: usize, rough: bool) -> J
     out
 }
 
+/// (E) `Clone::clone_from`: `a.clone_from(&b)` between instances of the same type with different
+/// parameters and histories must make `a` an exact copy of `b` (and leave `b` untouched).
+fn clone_from_stage(ctx: &Ctx, cfg: &Cfg) -> JobOut {
+    let mut out = JobOut::default();
+    let other = other_cfg(cfg);
+    let alpha = roughen(&generic_alphabet(cfg.kind, false));
+    let mut hists: Vec<Vec<Op>> = vec![vec![]];
+    for_each_seq(alpha.len(), None, 2, |seq| {
+        hists.push(seq.iter().map(|&a| alpha[a as usize]).collect());
+        true
+    });
+    let n = cfg.max_period().max(other.max_period());
+    for l in 3..=2 * n + 1 {
+        hists.push((0..l).map(|i| alpha[(i * 3 + 1) % alpha.len()]).collect());
+    }
+    let cont: Vec<Op> = (0..n + 2).map(|i| alpha[(i + 1) % alpha.len()]).collect();
+    for (dst_cfg, src_cfg) in [(*cfg, other), (other, *cfg), (*cfg, *cfg)] {
+        for hd in &hists {
+            for hs in &hists {
+                if ctx.out_of_time() {
+                    out.stats.capped.push("time cap in clone_from stage".into());
+                    return out;
+                }
+                if hd.len() > 2 && hs.len() > 2 && hd.len() != hs.len() {
+                    continue; // long x long only on the diagonal
+                }
+                out.stats.states += 1;
+                out.stats.traces += 1;
+                let r = std::panic::catch_unwind(std::panic::AssertUnwindSafe(|| {
+                    let mut dst = make(&dst_cfg);
+                    for op in hd {
+                        dst.apply(op);
+                    }
+                    let mut src = make(&src_cfg);
+                    let mut fresh = make(&src_cfg);
+                    let mut fresh2 = make(&src_cfg);
+                    for op in hs {
+                        src.apply(op);
+                        fresh.apply(op);
+                        fresh2.apply(op);
+                    }
+                    if !dst.assign_from(src.as_ref()) {
+                        return Some((0usize, 9usize, Out::NONE, Out::NONE));
+                    }
+                    if dst.disp() != src.disp() || dst.period() != src.period() {
+                        return Some((0, 8, Out::NONE, Out::NONE));
+                    }
+                    for (i, op) in cont.iter().enumerate() {
+                        let a = dst.apply(op);
+                        let e = fresh.apply(op);
+                        if !a.bits_eq(&e) {
+                            return Some((i, 0, a, e));
+                        }
+                    }
+                    // the source must be unaffected by what was fed to the copy
+                    for (i, op) in cont.iter().rev().enumerate() {
+                        let a = src.apply(op);
+                        let e = fresh2.apply(op);
+                        if !a.bits_eq(&e) {
+                            return Some((i, 1, a, e));
+                        }
+                    }
+                    None
+                }));
+                out.stats.transitions += (hd.len() + 3 * hs.len() + 4 * cont.len()) as u64;
+                out.stats.evaluations += 2 * cont.len() as u64;
+                match r {
+                    Ok(None) => {}
+                    Ok(Some((i, who, got, want))) => {
+                        let mut ops = hs.clone();
+                        ops.extend_from_slice(&cont[..=i.min(cont.len() - 1)]);
+                        out.fail(
+                            Violation::new(PROP, &src_cfg, &ops, if who == 1 { "not-independent" } else { "clone-diverges" })
+                                .obs(out2s(&got))
+                                .exp(out2s(&want))
+                                .det(format!("clone_from: a {} with history [{}] was overwritten by clone_from(&b), b = {} with the history shown; {}", dst_cfg.descr(), ops_text(hd), src_cfg.descr(), match who { 0 => format!("output {} of the copy differs from a fresh replay of b", i + 1), 1 => format!("output {} of b itself changed", i + 1), 8 => "parameters of the copy differ from b".to_string(), _ => "type mismatch".to_string() }))
+                                .with("schedule", "clone_from on the main thread".into()),
+                        );
+                        return out;
+                    }
+                    Err(_) => {
+                        out.fail(Violation::new(PROP, &src_cfg, hs, "panic").obs("panic in clone_from or afterwards".into()).exp("a copy".into()).det(format!("destination {} with history [{}]", dst_cfg.descr(), ops_text(hd))));
+                        return out;
+                    }
+                }
+            }
+        }
+    }
+    out
+}
+
+/// (F) ambient state: the outputs of an instance must not depend on WHEN it was built - first of
+/// its kind, after other instances (same and other parameters) were built, used past their first
+/// wrap-around and dropped, while others are alive, back-to-back with siblings fed in lock-step, or
+/// on another thread.  Larger periods included (pools / staggering thresholds).
+fn ambient_stage(ctx: &Ctx, kind: Kind) -> JobOut {
+    let mut out = JobOut::default();
+    let periods: &[usize] = if kind.nperiods() == 0 { &[1] } else { &[2, 32, 33, 64, 90] };
+    for &p in periods {
+        if ctx.out_of_time() {
+            out.stats.capped.push("time cap in ambient stage".into());
+            return out;
+        }
+        let cfg = Cfg::of(kind, &[p, 3, 2], 2.0);
+        let other = other_cfg(&cfg);
+        let n = cfg.max_period();
+        let len = 2 * n + n / 2 + 5;
+        let alpha = roughen(&generic_alphabet(kind, false));
+        let stream: Vec<Op> = (0..len).map(|i| alpha[(i * 5 + i / 3) % alpha.len()]).collect();
+        let noise: Vec<Op> = (0..len).map(|i| alpha[(i * 3 + 1) % alpha.len()]).collect();
+        let run = |c: &Cfg, ops: &[Op]| -> Vec<Out> {
+            let mut s = make(c);
+            ops.iter().map(|op| s.apply(op)).collect()
+        };
+        let r = std::panic::catch_unwind(std::panic::AssertUnwindSafe(|| {
+            let mut results: Vec<(&'static str, Vec<Out>)> = vec![];
+            results.push(("first instance of its kind", run(&cfg, &stream)));
+            // disturbances: same parameters used past the wrap-around and dropped; other parameters kept alive
+            let _ = run(&cfg, &noise);
+            let _ = run(&cfg, &noise[..n + 1]);
+            let mut alive = make(&other);
+            for op in &noise {
+                alive.apply(op);
+            }
+            results.push(("after same-parameter instances were used and dropped, another one alive", run(&cfg, &stream)));
+            // siblings built back-to-back and fed in lock-step
+            let mut sibs: Vec<Box<dyn Subject>> = (0..4).map(|_| make(&cfg)).collect();
+            let mut so: Vec<Vec<Out>> = vec![vec![]; 4];
+            for op in &stream {
+                for (i, s) in sibs.iter_mut().enumerate() {
+                    so[i].push(s.apply(op));
+                }
+            }
+            for (i, o) in so.into_iter().enumerate() {
+                results.push((["sibling #0 fed in lock-step", "sibling #1 fed in lock-step", "sibling #2 fed in lock-step", "sibling #3 fed in lock-step"][i], o));
+            }
+            drop(sibs);
+            results.push(("after four siblings were dropped", run(&cfg, &stream)));
+            // another OS thread (with its own earlier activity)
+            let (cfg2, stream2, noise2) = (cfg, stream.clone(), noise.clone());
+            let t = std::thread::spawn(move || {
+                let mut w = make(&cfg2);
+                for op in &noise2 {
+                    w.apply(op);
+                }
+                drop(w);
+                let mut s = make(&cfg2);
+                stream2.iter().map(|op| s.apply(op)).collect::<Vec<Out>>()
+            })
+            .join();
+            if let Ok(o) = t {
+                results.push(("on another thread after activity there", o));
+            }
+            drop(alive);
+            results
+        }));
+        out.stats.states += 1;
+        match r {
+            Ok(results) => {
+                out.stats.traces += results.len() as u64;
+                out.stats.transitions += (results.len() * len) as u64;
+                let (_, first) = &results[0];
+                for (name, o) in &results[1..] {
+                    out.stats.evaluations += len as u64;
+                    out.stats.nontrivial += 1;
+                    if let Some(i) = (0..len).find(|&i| !o[i].bits_eq(&first[i])) {
+                        out.fail(
+                            Violation::new(PROP, &cfg, &stream[..=i], "depends-on-ambient-state")
+                                .obs(out2s(&o[i]))
+                                .exp(out2s(&first[i]))
+                                .det(format!("two instances with the same parameters fed the same history differ at output {}: '{}' vs 'first instance of its kind'", i + 1, name))
+                                .with("schedule", name.to_string()),
+                        );
+                        return out;
+                    }
+                }
+            }
+            Err(_) => {
+                out.fail(Violation::new(PROP, &cfg, &stream, "panic").obs("panic".into()).exp("outputs".into()));
+                return out;
+            }
+        }
+    }
+    out
+}
+
 /// Supplementary, SAMPLING: free-running threads each owning distinct instances.
 fn free_running(ctx: &Ctx, rounds: usize, out: &mut JobOut) {
     let threads = 16usize;
@@ -501,6 +687,21 @@ pub fn run(ctx: &Ctx) -> CheckResult {
             res.absorb(merge_jobs(outs));
         }
     }
+    // (F) ambient state (must run before anything else in this process has built large-period instances
+    // of a kind - it is still meaningful afterwards, but "first of its kind" is then approximate)
+    if !res.out.failed() {
+        let outs = par_run(ctx, &ALL_KINDS, |_, k| ambient_stage(ctx, *k));
+        res.absorb(merge_jobs(outs));
+    }
+    // (E) clone_from between different parameters / histories
+    if !res.out.failed() {
+        let mut c3 = vec![];
+        for k in ALL_KINDS {
+            c3.extend(generic_cfgs(k, &[1, 2, 3, 5], &[2, 3]));
+        }
+        let outs = par_run(ctx, &c3, |_, cfg| clone_from_stage(ctx, cfg));
+        res.absorb(merge_jobs(outs));
+    }
     // lifecycle state graph: clone() checked in EVERY reachable state (fixpoint where the graph is finite)
     if !res.out.failed() {
         let (o, grows) = super::graph::run_all(ctx, PROP, super::graph::Fork::Clone, if th { &[1, 2, 3, 4, 5] } else { &[1, 2, 3, 4] }, &[1, 2], if th { 150_000 } else { 5_000 }, if th { 16 } else { 10 });
@@ -529,7 +730,7 @@ pub fn run(ctx: &Ctx) -> CheckResult {
     res.require(res.out.stats.counters.get("schedules_threads").copied().unwrap_or(0) > 1 || res.out.failed(), "no multi-thread schedule was executed");
     res.rule = "case = (configuration, history h at which the clone is taken, schedule): objects {original after h, its clone, unrelated instance with other parameters} each get a continuation; a schedule = interleaving of their operations + assignment of every step to a real OS worker thread; oracle = every output bit-identical to a fresh instance replaying that object's own operations on the main thread; non-trivial = schedule executed on >= 1 worker thread other than main".into();
     res.bounds = format!(
-        "all 22 indicators, periods {{1,3}}, each part on the exact alphabet and on an inexact one (x -> 0.7x+0.013, so that summation order and buffer layout are observable under bit-equality); every history in seq(4 symbols, {hist_depth}) as clone point; (A) all {} merges of 3x{cont_len} ops on one thread; (B) histories up to length {thread_hist_depth}: 3 canonical merges x all worker assignments up to renaming on {k_workers} real threads x clone taken on worker 0/1; (B') for the empty history (thorough: histories up to length 1) the FULL product of all merges x all worker assignments x clone worker; (C) all 16x16 continuation pairs for original/clone under 3 sequential schedules; (D) periods 1..5(6): clone after every history up to depth 2(3) and after every prefix up to 2n+2 of two default streams, every continuation of n+2 inputs over 3 symbols for the clone while the original is fed different inputs in between; plus {rounds} free-running 16-thread rounds (SAMPLING, not part of the exhaustive claim)",
+        "all 22 indicators, periods {{1,3}}, each part on the exact alphabet and on an inexact one (x -> 0.7x+0.013, so that summation order and buffer layout are observable under bit-equality); every history in seq(4 symbols, {hist_depth}) as clone point; (A) all {} merges of 3x{cont_len} ops on one thread; (B) histories up to length {thread_hist_depth}: 3 canonical merges x all worker assignments up to renaming on {k_workers} real threads x clone taken on worker 0/1; (B') for the empty history (thorough: histories up to length 1) the FULL product of all merges x all worker assignments x clone worker; (C) all 16x16 continuation pairs for original/clone under 3 sequential schedules; (F) ambient state: instances with the same parameters and history (periods 2, 32, 33, 64, 90) built first / after others were used past their wrap-around and dropped / as lock-step siblings / on another thread must agree bit for bit; (E) Clone::clone_from between instances with different parameters and histories (copy must replay like the source, source untouched); (D) periods 1..5(6): clone after every history up to depth 2(3) and after every prefix up to 2n+2 of two default streams, every continuation of n+2 inputs over 3 symbols for the clone while the original is fed different inputs in between; plus {rounds} free-running 16-thread rounds (SAMPLING, not part of the exhaustive claim)",
         merges(&vec![cont_len; 3]).len()
     );
     let mut assumptions = vec![
